@@ -156,4 +156,52 @@ theorem runeCountFuel_ascii (fuel : Nat) : ∀ bs : List Nat, (∀ b ∈ bs, b <
 theorem runeCount_ascii (bs : List Nat) (h : ∀ b ∈ bs, b < 128) : runeCount bs = bs.length :=
   runeCountFuel_ascii _ bs h (Nat.le_refl _)
 
+theorem decodeRune_size (b : Nat) (rest : List Nat) : 1 ≤ (decodeRune (b :: rest)).2 ∧ (decodeRune (b :: rest)).2 ≤ (b :: rest).length := by
+  have hw := width_le_length (b :: rest)
+  unfold decodeRune
+  simp only
+  split
+  · simp
+  · split
+    · simp
+    · split <;> simp only [List.length_cons] at hw ⊢ <;> simp <;> omega
+
+theorem printableWalk_total : ∀ (fuel : Nat) (bs : List Nat), bs.length ≤ fuel → printableWalk fuel bs ≠ .panic := by
+  intro fuel
+  induction fuel with
+  | zero =>
+    intro bs h
+    have : bs = [] := List.length_eq_zero_iff.mp (by omega)
+    subst this; simp [printableWalk]
+  | succ n ih =>
+    intro bs h
+    cases bs with
+    | nil => simp [printableWalk]
+    | cons b rest =>
+      have hs := decodeRune_size b rest
+      unfold printableWalk
+      simp only
+      split
+      · simp
+      · split
+        · simp
+        · rw [if_pos hs.2]
+          apply ih
+          simp only [List.length_drop, List.length_cons] at h ⊢
+          omega
+
+theorem dnNotPrintable_total : ∀ vs : List (List Nat), dnNotPrintable vs ≠ .panic := by
+  intro vs
+  induction vs with
+  | nil => simp [dnNotPrintable]
+  | cons v vs ih =>
+    unfold dnNotPrintable
+    have := printableWalk_total v.length v (Nat.le_refl _)
+    cases h : printableWalk v.length v with
+    | pass => exact ih
+    | error => simp
+    | panic => exact absurd h this
+
+
+
 end Zl.Thresholds
